@@ -240,15 +240,23 @@ class C12(Check):
         if k == "vendor": return of.ofp_action_vendor_generic(vendor=a["v"], body=b"\0\0\0\0")
         raise ValueError(k)
 
+    def portnos(self, case):
+        return case.get("portnos") or list(range(1, case.get("nports", NPORTS) + 1))
+
     def impl(self, case):
         of = self.of
-        node = self.swnet.SwitchNode(dpid=1, ports=case.get("nports", NPORTS), max_buffers=case.get("bufs", 4096), miss_send_len=128)
+        if case.get("portnos"):
+            node = self.swnet.SwitchNode(dpid=1, ports=0, max_buffers=case.get("bufs", 4096), miss_send_len=128)
+            for no in case["portnos"]: node.sw.add_port(node.sw.generate_port(no))
+            node.drain()
+        else:
+            node = self.swnet.SwitchNode(dpid=1, ports=case.get("nports", NPORTS), max_buffers=case.get("bufs", 4096), miss_send_len=128)
         sw = node.sw
         log = []
         sw.addListener(self.DpPacketOut, lambda e: log.append({"k": "frame", "port": e.port.port_no, "data": e.packet.pack().hex()}))
         real_send = sw.send
         def send(message, connection=None):
-            log.append(("msg", message.pack() if hasattr(message, "pack") else bytes(message)))
+            log.append(("msg", message.pack() if hasattr(message, "pack") else bytes(message)))     # encoded at send time
             return real_send(message, connection)
         sw.send = send
         raised = []
@@ -258,6 +266,7 @@ class C12(Check):
             except Exception as e:
                 raised.append(type(e).__name__); raise
         node.ofc.on_message_received = handler
+        bids = []                                      # buffer ids handed out so far, in order
         def canon_log():
             out = []
             for e in log:
@@ -265,28 +274,41 @@ class C12(Check):
                 b = e[1]; t = b[1]
                 o = of._message_type_to_class[t](); o.unpack(b, 0)
                 if isinstance(o, of.ofp_packet_in):
+                    if o.buffer_id is not None: bids.append(o.buffer_id)
                     out.append({"k": "pin", "in_port": o.in_port, "reason": o.reason, "data": o.data.hex(), "total": o.total_len, "buffered": o.buffer_id is not None})
                 elif isinstance(o, of.ofp_error): out.append({"k": "error", "type": o.type, "code": o.code})
                 elif isinstance(o, of.ofp_port_status): out.append({"k": "port_status", "port": o.desc.port_no, "config": o.desc.config, "state": o.desc.state})
+                elif isinstance(o, of.ofp_stats_reply) and o.type == of.OFPST_PORT:
+                    body = o.body if isinstance(o.body, (list, tuple)) else [o.body]
+                    out.append({"k": "stats", "ports": [{"no": x.port_no, "rx_p": x.rx_packets, "rx_b": x.rx_bytes, "tx_p": x.tx_packets, "tx_b": x.tx_bytes} for x in body]})
+                elif isinstance(o, of.ofp_features_reply):
+                    out.append({"k": "features", "ports": [{"no": x.port_no, "config": x.config, "state": x.state} for x in o.ports]})
                 else: out.append({"k": "other", "cls": type(o).__name__})
             return out
         def cfg(): return [[n, p.config, p.state] for n, p in sw.ports.items()]
+        prio = [60000]
+        def mk_msg(op):
+            k = op["op"]
+            if k == "portmod": return of.ofp_port_mod(port_no=op["port"], hw_addr=self.EthAddr(bytes.fromhex(op["hw"])), config=op["config"], mask=op["mask"])
+            if k == "setconfig": return of.ofp_set_config(flags=op["flags"], miss_send_len=op["miss"])
+            if k == "flow":
+                m = of.ofp_match() if op["in_port"] is None else of.ofp_match(in_port=op["in_port"])
+                prio[0] -= 1
+                return of.ofp_flow_mod(command=of.OFPFC_ADD, match=m, priority=prio[0], actions=[self.mk_action(a) for a in op["acts"]])
+            if k == "pktout" and "buffer" in op:           # a packet the switch buffered earlier (the k-th buffer id it handed out)
+                bid = bids[op["buffer"]] if op["buffer"] < len(bids) else 0x7ffffff0
+                return of.ofp_packet_out(buffer_id=bid, in_port=op["in_port"], actions=[self.mk_action(a) for a in op["acts"]])
+            if k == "pktout": return of.ofp_packet_out(data=bytes.fromhex(op["data"]), in_port=op["in_port"], actions=[self.mk_action(a) for a in op["acts"]])
+            if k == "stats": return of.ofp_stats_request(body=of.ofp_port_stats_request(port_no=of.OFPP_NONE if op.get("port") is None else op["port"]))
+            if k == "features": return of.ofp_features_request()
+            raise ValueError(k)
         outs, cfgs, exc, partial = [], [], None, None
-        prio = 60000
         for op in case["ops"]:
             del log[:]; del raised[:]
             cfgs.append(cfg())
             k = op["op"]; st = "ok"
-            if k == "portmod":
-                st, _, _ = node.send(of.ofp_port_mod(port_no=op["port"], hw_addr=self.EthAddr(bytes.fromhex(op["hw"])), config=op["config"], mask=op["mask"]))
-            elif k == "setconfig":
-                st, _, _ = node.send(of.ofp_set_config(flags=op["flags"], miss_send_len=op["miss"]))
-            elif k == "flow":
-                m = of.ofp_match() if op["in_port"] is None else of.ofp_match(in_port=op["in_port"])
-                prio -= 1
-                st, _, _ = node.send(of.ofp_flow_mod(command=of.OFPFC_ADD, match=m, priority=prio, actions=[self.mk_action(a) for a in op["acts"]]))
-            elif k == "pktout":
-                st, _, _ = node.send(of.ofp_packet_out(data=bytes.fromhex(op["data"]), in_port=op["in_port"], actions=[self.mk_action(a) for a in op["acts"]]))
+            if k == "batch":                            # several controller messages in ONE read of the connection
+                st, _, _ = node.send(b"".join(mk_msg(o).pack() for o in op["ops"]))
             elif k == "rx" and op.get("nopd"):          # the packet object only (packet_data=None): rx_bytes and a miss use packet.pack()
                 try: sw.rx_packet(self.ethernet(bytes.fromhex(op["data"])), op["port"])
                 except Exception as e: st = "raise:" + type(e).__name__
@@ -296,7 +318,8 @@ class C12(Check):
             elif k == "link":
                 p = sw.ports[op["port"]]
                 p.state = (p.state | 1) if op["down"] else (p.state & ~1)
-            else: raise ValueError(k)
+            else:
+                st, _, _ = node.send(mk_msg(op))
             if st.startswith("raise:"): raised.append(st[6:])
             elif st != "ok": raised.append(st)
             if raised:
@@ -315,15 +338,30 @@ class C12(Check):
         return {"outs": outs, "exc": exc, "partial": partial, "ports": ports, "cfg": cfgs}
 
     # ------------------------------------------------------------------ model side
+    def _flat(self, case):
+        """the history with batches flattened, and for every top-level op how many flat ops it stands for"""
+        flat, sizes = [], []
+        for op in case["ops"]:
+            if op["op"] == "batch": flat += op["ops"]; sizes.append(len(op["ops"]))
+            else: flat.append(op); sizes.append(1)
+        return flat, sizes
+
     def model_request(self, case):
         if case.get("oracle_only"): return None
-        ports = [{"no": i, "hw": self.hw(i).hex(), "config": PC_NO_STP, "state": 0} for i in range(1, case.get("nports", NPORTS) + 1)]
-        return {"var": dict(self.variant), "ports": ports, "bufs": case.get("bufs", 4096), "ops": case["ops"]}
+        ports = [{"no": i, "hw": self.hw(i).hex(), "config": PC_NO_STP, "state": 0} for i in self.portnos(case)]
+        return {"var": dict(self.variant), "ports": ports, "bufs": case.get("bufs", 4096), "ops": self._flat(case)[0]}
 
     def model_obs(self, case, resp):
         if "error" in resp: return resp
-        r = {"outs": resp["outs"], "exc": resp["exc"], "ports": resp["ports"] if resp["exc"] is None else None}
-        if case.get("wf"): r["spec"] = resp["spec"]
+        flat, sizes = self._flat(case)
+        outs, spec, i = [], [], 0
+        for op, n in zip(case["ops"], sizes):
+            if i + n > len(resp["outs"]): break                      # the model stopped inside / before this op
+            outs.append([o for part in resp["outs"][i:i + n] for o in part])
+            spec.append(resp["spec"][i] if op["op"] != "batch" else None)
+            i += n
+        r = {"outs": outs, "exc": resp["exc"], "ports": resp["ports"] if resp["exc"] is None else None}
+        if case.get("wf"): r["spec"] = spec
         return r
 
     def impl_view(self, case, obs):
@@ -364,8 +402,63 @@ class C12(Check):
                 cur = spec_rewrite(a, cur)
         return out, cur
 
+    def _expect(self, op, cfg, st):
+        """one operation against the oracle's own state `st` (flow rules, miss_send_len, flags, free buffers, buffered frames,
+        expected counters) and the port table `cfg`: (expected log, port table afterwards, (where, frame, ingress) or None)"""
+        k = op["op"]
+        if k == "portmod":
+            cur = dict((n, (c, s)) for n, c, s in cfg)
+            if op["port"] not in cur: return [{"k": "error", "type": 4, "code": 0}], cfg, None
+            if bytes.fromhex(op["hw"]) != self.hw(op["port"]): return [{"k": "error", "type": 4, "code": 1}], cfg, None
+            c, s = cur[op["port"]]
+            m = op["mask"] & HANDLED
+            c2 = (c & ~m) | (op["config"] & m)
+            s2, out = s, []
+            if (c2 ^ c) & PC_PORT_DOWN:                       # LINK_DOWN follows an administrative change; a port-status reports it
+                s2 = (s & ~1) | (c2 & 1)
+                if s2 != s: out.append({"k": "port_status", "port": op["port"], "config": (c & ~1) | (c2 & 1), "state": s2})
+            return out, [(n, c2, s2) if n == op["port"] else (n, cc, ss) for n, cc, ss in cfg], None
+        if k == "setconfig":
+            st["miss"], st["flags"] = op["miss"], op["flags"]; return [], cfg, None
+        if k == "flow":
+            st["rules"].append(op); return [], cfg, None
+        if k == "link":
+            return [], [(n, c, (s | 1) if op["down"] else (s & ~1)) if n == op["port"] else (n, c, s) for n, c, s in cfg], None
+        if k == "stats":
+            sel = [n for n, c, s in cfg if op.get("port") is None or n == op["port"]]
+            return [{"k": "stats", "ports": [{"no": n, "rx_p": st["erx"].get(n, [0, 0])[0], "rx_b": st["erx"].get(n, [0, 0])[1],
+                                              "tx_p": st["etx"].get(n, [0, 0])[0], "tx_b": st["etx"].get(n, [0, 0])[1]} for n in sel]}], cfg, None
+        if k == "features":
+            return [{"k": "features", "ports": [{"no": n, "config": c, "state": s} for n, c, s in cfg]}], cfg, None
+        if k == "pktout" and "buffer" in op:
+            i = op["buffer"]
+            if i < len(st["bufstore"]) and st["bufstore"][i] is not None:
+                frame, ingress, safe = st["bufstore"][i]; st["bufstore"][i] = None
+                if not safe: return None, cfg, None            # a buffer whose packet later actions may have changed: not judged
+                exp, _ = self._apply(op["acts"], frame, ingress, cfg, st["rules"], st["miss"])
+                return exp, cfg, ("pktout(buffer)", frame, ingress)
+            # OFPET_BAD_REQUEST with OFPBRC_BUFFER_EMPTY (7: used before) / OFPBRC_BUFFER_UNKNOWN (8: never handed out); nothing emitted
+            return [{"k": "error", "type": 1, "code": 7 if i < len(st["bufstore"]) else 8}], cfg, None
+        if k == "pktout":
+            frame = bytes.fromhex(op["data"]); ingress = op["in_port"]
+            exp, _ = self._apply(op["acts"], frame, ingress, cfg, st["rules"], st["miss"])
+            return exp, cfg, ("pktout", frame, ingress)
+        frame = bytes.fromhex(op["data"]); ingress = op["port"]
+        c = dict((n, c) for n, c, s in cfg).get(ingress)
+        stp = frame[:6] == STP_MAC
+        L = Loc(frame)
+        isfrag = L.ip and (L.mf or L.frag != 0)
+        accepted = c is not None and not (c & PC_NO_RECV and not stp) and not (c & PC_NO_RECV_STP and stp) and not ((st["flags"] & 3) == 1 and isfrag)
+        if not accepted: return [], cfg, ("rx", frame, ingress)
+        r = st["erx"].setdefault(ingress, [0, 0]); r[0] += 1; r[1] += len(frame)
+        exp, _ = self._table(st["rules"], cfg, st["miss"], frame, ingress, frame)
+        for o in exp:
+            if o["k"] == "pin": o["_rxmiss"] = True
+        return exp, cfg, ("rx", frame, ingress)
+
     def oracle(self, case, obs):
-        if obs["exc"] == "RecursionError" and any(a["a"] in ("output", "enqueue") and a["port"] == P_TABLE for op in case["ops"] if op["op"] == "flow" for a in op["acts"]):
+        flat = self._flat(case)[0]
+        if obs["exc"] == "RecursionError" and any(a["a"] in ("output", "enqueue") and a["port"] == P_TABLE for op in flat if op["op"] == "flow" for a in op["acts"]):
             # a flow entry that outputs to OFPP_TABLE is outside OpenFlow 1.0 ("only ... for packet-out messages") and outside this
             # property's assumptions: the lookup re-enters itself until Python's recursion limit.  Compared model-vs-code only
             # (the model's nesting allowance runs out the same way); reported as candidate finding C12-5, not as a violation.
@@ -373,86 +466,69 @@ class C12(Check):
         if obs["exc"] is not None:
             return "operation %d (%s) raised %s" % (len(obs["outs"]), case["ops"][len(obs["outs"])]["op"], obs["exc"])
         canon = bool(case.get("canon"))
-        rules, miss, flags = [], 128, 0
-        free = case.get("bufs", 4096)          # packet buffers left
+        st = {"rules": [], "miss": 128, "flags": 0, "free": case.get("bufs", 4096), "bufstore": [], "etx": {}, "erx": {}}
         tx = {}; rx = {}
+        l4rw = any(a["a"] in ("set_nw_src", "set_nw_dst", "set_tp_src", "set_tp_dst") for o2 in flat if "acts" in o2 for a in o2["acts"])
         for i, (op, got) in enumerate(zip(case["ops"], obs["outs"])):
             cfg = [tuple(x) for x in obs["cfg"][i]]
-            k = op["op"]; exp = None
+            real_after = [tuple(x) for x in obs["cfg"][i + 1]] if i + 1 < len(obs["cfg"]) else [(p["no"], p["config"], p["state"]) for p in obs["ports"]]
+            batch = op["op"] == "batch"
             for o in got:
                 if o["k"] == "frame":
                     t = tx.setdefault(o["port"], [0, 0]); t[0] += 1; t[1] += len(o["data"]) // 2
-                    if not port_up(cfg, o["port"]): return "op %d: frame emitted on port %d which is down / link-down / NO_FWD / unknown" % (i, o["port"])
+                    if not batch and not port_up(cfg, o["port"]): return "op %d: frame emitted on port %d which is down / link-down / NO_FWD / unknown" % (i, o["port"])
                 if o["k"] == "other": return "op %d: unexpected message %s" % (i, o["cls"])
-            if k == "portmod":
-                after = dict((n, (c, s)) for n, c, s in (obs["cfg"][i + 1] if i + 1 < len(obs["cfg"]) else [(p["no"], p["config"], p["state"]) for p in obs["ports"]]))
-                before = dict((n, (c, s)) for n, c, s in cfg)
-                if op["port"] not in before:
-                    if got != [{"k": "error", "type": 4, "code": 0}]: return "op %d: port_mod for unknown port not answered with BAD_PORT" % i
-                elif bytes.fromhex(op["hw"]) != self.hw(op["port"]):
-                    if got != [{"k": "error", "type": 4, "code": 1}]: return "op %d: port_mod with wrong hw_addr not answered with BAD_HW_ADDR" % i
-                    if after != before: return "op %d: rejected port_mod changed a port" % i
-                else:
-                    m = op["mask"] & HANDLED
-                    want = (before[op["port"]][0] & ~m) | (op["config"] & m)
-                    if after[op["port"]][0] != want: return "op %d: port_mod config %#x mask %#x on %#x gives %#x, expected %#x" % (i, op["config"], op["mask"], before[op["port"]][0], after[op["port"]][0], want)
-                    for n in before:
-                        if n != op["port"] and after[n] != before[n]: return "op %d: port_mod changed another port" % i
-                    if any(o["k"] != "port_status" for o in got): return "op %d: port_mod produced %s" % (i, got)
-                continue
-            if k == "setconfig":
-                miss, flags = op["miss"], op["flags"]
-                if got: return "op %d: set_config produced output" % i
-                continue
-            if k == "flow":
-                rules.append(op)
-                if got: return "op %d: flow_mod produced output" % i
-                continue
-            if k == "link":
-                continue
-            if k == "pktout":
-                frame = bytes.fromhex(op["data"]); ingress = op["in_port"]
-                exp, _ = self._apply(op["acts"], frame, ingress, cfg, rules, miss)
-                where = "pktout"
-            else:
-                frame = bytes.fromhex(op["data"]); ingress = op["port"]
+            exp, infos, judged = [], [], True
+            for sub in (op["ops"] if batch else [op]):
+                before = cfg
+                e, cfg, info = self._expect(sub, cfg, st)
+                if e is None: judged = False; break
+                for o in e:                                        # the pool, in log order: a buffer while one is free, then none
+                    if o["k"] == "pin":
+                        full, limit = o.pop("_full"), o.pop("_limit"); rxmiss = o.pop("_rxmiss", False)
+                        o["buffered"] = st["free"] > 0
+                        if st["free"] > 0:
+                            st["free"] -= 1; st["bufstore"].append((full, o["in_port"], rxmiss))
+                        o["data"] = (full[:limit] if (o["buffered"] and limit is not None) else full).hex(); o["total"] = len(full)
+                    if o["k"] == "frame":
+                        t = st["etx"].setdefault(o["port"], [0, 0]); t[0] += 1; t[1] += len(o["data"]) // 2
+                exp += e
+                if info: infos.append(info)
+                if sub["op"] == "portmod" and not batch:
+                    want = dict((n, c) for n, c, s in cfg).get(sub["port"]); have = dict((n, c) for n, c, s in real_after).get(sub["port"])
+                    if want != have:
+                        return "op %d: port_mod config %#x mask %#x on %#x gives %#x, expected %#x" % (i, sub["config"], sub["mask"], dict((n, c) for n, c, s in before)[sub["port"]], have, want)
+            if not judged: continue
+            if sorted(cfg) != sorted(real_after) and op["op"] in ("portmod", "batch", "link"):
+                return "op %d: port_mod/link sequence leaves ports (no, config, state) %s, expected %s" % (i, sorted(real_after), sorted(cfg))
+            where, frame, ingress = infos[-1] if infos else (op["op"], b"", None)
+            if op["op"] == "rx":                      # (accepted receptions were tallied by _expect; the counters are compared at the end)
                 c = dict((n, c) for n, c, s in cfg).get(ingress)
-                stp = frame[:6] == STP_MAC
-                L = Loc(frame)
-                isfrag = L.ip and (L.mf or L.frag != 0)
-                accepted = c is not None and not (c & PC_NO_RECV and not stp) and not (c & PC_NO_RECV_STP and stp) and not ((flags & 3) == 1 and isfrag)
-                if c is not None and (c & PC_NO_RECV) and not stp and got: return "op %d: frame from a NO_RECV port was processed" % i
-                if accepted:
-                    r = rx.setdefault(ingress, [0, 0]); r[0] += 1; r[1] += len(frame)
-                    exp, _ = self._table(rules, cfg, miss, frame, ingress, frame)
-                else:
-                    exp = []
-                where = "rx"
-            for o in exp:                                        # the pool, in log order: a buffer while one is free, then none
-                if o["k"] == "pin":
-                    full, limit = o.pop("_full"), o.pop("_limit")
-                    o["buffered"] = free > 0
-                    if free > 0: free -= 1
-                    o["data"] = (full[:limit] if (o["buffered"] and limit is not None) else full).hex(); o["total"] = len(full)
+                if c is not None and (c & PC_NO_RECV) and frame[:6] != STP_MAC and got: return "op %d: frame from a NO_RECV port was processed" % i
             bg = [o.get("buffered") for o in got if o["k"] == "pin"]; be = [o.get("buffered") for o in exp if o["k"] == "pin"]
-            if len(bg) == len(be) and bg != be: return "op %d %s: packet-in buffer ids %s, with %d buffers free expected %s" % (i, where, bg, free + sum(be), be)
+            if len(bg) == len(be) and bg != be: return "op %d %s: packet-in buffer ids %s, expected %s" % (i, where, bg, be)
             # ports and kinds always; bytes when the frame is canonical (lengths/checksums valid, so recomputing them is the identity)
             if [(o["k"], o.get("port"), o.get("in_port"), o.get("reason")) for o in got] != [(o["k"], o.get("port"), o.get("in_port"), o.get("reason")) for o in exp]:
                 gp = [o.get("port") for o in got if o["k"] == "frame"]; ep = [o.get("port") for o in exp if o["k"] == "frame"]
-                if ingress in gp and ingress not in ep: return "op %d %s: frame emitted on the ingress port %d without IN_PORT" % (i, where, ingress)
+                if ingress is not None and ingress in gp and ingress not in ep: return "op %d %s: frame emitted on the ingress port %d without IN_PORT" % (i, where, ingress)
                 return "op %d %s: outputs %s, specification %s" % (i, where, [(o["k"], o.get("port")) for o in got], [(o["k"], o.get("port")) for o in exp])
-            L = Loc(frame) if len(frame) >= 14 else None
             cls = ""
-            if L is not None and L.ip:
-                if L.mf and L.frag == 0: cls = " [ip-first-fragment]"
-                elif L.end < len(frame): cls = " [ethernet-trailer]"
-            l4rw = any(a["a"] in ("set_nw_src", "set_nw_dst", "set_tp_src", "set_tp_dst") for o2 in case["ops"] if "acts" in o2 for a in o2["acts"])
-            if canon and not (cls == " [ip-first-fragment]" and l4rw):     # a fragment's L4 checksum cannot be recomputed: not compared
-                for j, (g, e) in enumerate(zip(got, exp)):
-                    if g != e:
-                        return "op %d %s: output %d (%s) differs from the specification%s: got %s expected %s" % (i, where, j, g["k"], cls, g.get("data"), e.get("data"))
+            for _, fr, _ing in infos:
+                L = Loc(fr) if len(fr) >= 14 else None
+                if L is not None and L.ip:
+                    if L.mf and L.frag == 0: cls = " [ip-first-fragment]"
+                    elif L.end < len(fr) and not cls: cls = " [ethernet-trailer]"
+            for j, (g, e) in enumerate(zip(got, exp)):
+                if g == e: continue
+                if g["k"] in ("stats", "features"):
+                    return "op %d: %s reply %s, expected %s" % (i, g["k"], json.dumps(g["ports"])[:300], json.dumps(e["ports"])[:300])
+                if g["k"] in ("error", "port_status"):
+                    return "op %d %s: message %s, expected %s" % (i, where, g, e)
+                if canon and not (cls == " [ip-first-fragment]" and l4rw):     # a fragment's L4 checksum cannot be recomputed: not compared
+                    return "op %d %s: output %d (%s) differs from the specification%s: got %s expected %s" % (i, where, j, g["k"], cls, g.get("data"), e.get("data"))
         f = self._noop_check(case, obs)
         if f: return f
+        rx = st["erx"]
         for p in obs["ports"]:
             t = tx.get(p["no"], [0, 0]); r = rx.get(p["no"], [0, 0])
             if [p["tx_p"], p["tx_b"]] != t: return "port %d tx counters %s but %s frames/bytes were transmitted" % (p["no"], [p["tx_p"], p["tx_b"]], t)
@@ -463,8 +539,9 @@ class C12(Check):
         """SET_TP_* on a frame whose IPv4 payload is not TCP/UDP, and SET_NW_* / SET_TP_* on a frame that is not IPv4, are no-ops:
         the same history without those actions must produce exactly the same log.  Needs no assumption on the frame (works for
         frames whose lengths/checksums are not canonical), and does not involve the model."""
-        frames = [bytes.fromhex(op["data"]) for op in case["ops"] if op["op"] in ("pktout", "rx")]
-        if not frames or any(len(fr) < 14 for fr in frames): return None
+        flat = self._flat(case)[0]
+        frames = [bytes.fromhex(op["data"]) for op in flat if "data" in op]
+        if not frames or any(len(fr) < 14 for fr in frames) or any(op["op"] in ("stats", "features") or "buffer" in op for op in flat): return None
         # strip_vlan can bring a header behind a second tag into view: the premise must hold for every tag-stripped form too
         forms = []
         for fr in frames:
@@ -475,21 +552,24 @@ class C12(Check):
         drop = set()
         if all(not (L.ip and L.proto in (6, 17)) for L in locs): drop |= {"set_tp_src", "set_tp_dst"}
         if all(not L.ip and L.type != 0x0800 for L in locs): drop |= {"set_nw_src", "set_nw_dst", "set_nw_tos", "set_tp_src", "set_tp_dst"}
-        if not drop or not any(a["a"] in drop for op in case["ops"] if "acts" in op for a in op["acts"]): return None
+        if not drop or not any(a["a"] in drop for op in flat if "acts" in op for a in op["acts"]): return None
         c2 = copy.deepcopy(case)
         for op in c2["ops"]:
-            if "acts" in op: op["acts"] = [a for a in op["acts"] if a["a"] not in drop]
+            for o in (op["ops"] if op["op"] == "batch" else [op]):
+                if "acts" in o: o["acts"] = [a for a in o["acts"] if a["a"] not in drop]
         o2 = self.impl(c2)
         if o2["exc"] is not None or o2["outs"] != obs["outs"] or o2["ports"] != obs["ports"]:
             i = next((j for j, (a, b) in enumerate(zip(obs["outs"], o2["outs"])) if a != b), len(o2["outs"]))
-            used = sorted(set(a["a"] for op in case["ops"] if "acts" in op for a in op["acts"] if a["a"] in drop))
+            used = sorted(set(a["a"] for op in flat if "acts" in op for a in op["acts"] if a["a"] in drop))
             return "op %d: %s changed a frame that has no such header (no-op expected): with the actions %s, without %s" % (
                 i, "+".join(used), json.dumps(obs["outs"][i] if i < len(obs["outs"]) else None)[:300], json.dumps(o2["outs"][i] if i < len(o2["outs"]) else o2["exc"])[:300])
         return None
 
     def finding_key(self, case, obs, failure):
-        acts = [a for op in case["ops"] if op["op"] in ("pktout", "flow") for a in op["acts"]]
+        acts = [a for op in self._flat(case)[0] if op["op"] in ("pktout", "flow") for a in op["acts"]]
         ks = kinds(acts)
+        if "reply" in failure and "expected" in failure: return "readout:" + failure.split(": ", 1)[1].split(" ")[0] + "-reply-stale-or-wrong"
+        if "port_mod/link sequence" in failure: return "port_mod:sequence-leaves-wrong-config"
         if "raised" in failure:
             exc = failure.rsplit(" ", 1)[-1]
             if exc == "AttributeError" and "enqueue" in ks: return "action:enqueue:AttributeError"
@@ -534,7 +614,7 @@ class C12(Check):
 
     def nontrivial(self, case, obs):
         emitted = any(o["k"] in ("frame", "pin") for outs in obs["outs"] for o in outs)
-        acts = [a for op in case["ops"] if op["op"] in ("pktout", "flow") for a in op["acts"]]
+        acts = [a for op in self._flat(case)[0] if op["op"] in ("pktout", "flow") for a in op["acts"]]
         rewrites = any(a["a"] in REWRITES for a in acts)
         cfgbits = any(c != PC_NO_STP or s for snap in obs["cfg"] for n, c, s in snap)
         return emitted and (rewrites or cfgbits)
@@ -547,6 +627,10 @@ class C12(Check):
             if "acts" in op:
                 for j in range(len(op["acts"])):
                     c = copy.deepcopy(case); del c["ops"][i]["acts"][j]; yield c
+            if op["op"] == "batch":
+                for j in range(len(op["ops"])):
+                    c = copy.deepcopy(case); del c["ops"][i]["ops"][j]; yield c
+                c = copy.deepcopy(case); c["ops"][i:i + 1] = op["ops"]; yield c         # the same messages one by one
 
     # ------------------------------------------------------------------ generators
     MACS = ["001122334455", "66778899aabb", "ffffffffffff", "0180c2000000", "020000000001"]
@@ -653,6 +737,25 @@ class C12(Check):
         if wild and rng.random() < 0.15 and acts:
             acts.insert(rng.randint(0, len(acts)), {"a": "vendor", "v": rng.randint(0, 2 ** 32 - 1)})
         return acts
+
+    def remap(self, case, m):
+        """the same case on a switch whose ports 1, 2, 3 carry other numbers"""
+        c = copy.deepcopy(case)
+        c["portnos"] = [m.get(i, i) for i in (1, 2, 3)]
+        def fix(op):
+            if op["op"] == "batch":
+                for o in op["ops"]: fix(o)
+                return
+            if op["op"] == "portmod":
+                good = op["hw"] == self.hw(op["port"]).hex()
+                op["port"] = m.get(op["port"], op["port"])
+                if good: op["hw"] = self.hw(op["port"]).hex()
+            elif op["op"] in ("rx", "link", "stats") and op.get("port") is not None: op["port"] = m.get(op["port"], op["port"])
+            if op.get("in_port") is not None: op["in_port"] = m.get(op["in_port"], op["in_port"])
+            for a in op.get("acts", []):
+                if "port" in a: a["port"] = m.get(a["port"], a["port"])
+        for op in c["ops"]: fix(op)
+        return c
 
     def portmods(self, cfgs):
         """port_mod ops that take ports 1..3 from the default config to the given 7-bit configs"""
@@ -765,6 +868,95 @@ class C12(Check):
                                                {"op": "pktout", "in_port": 1, "data": tcp, "acts": [ctl(20), out1(2), ctl(0), {"a": "set_nw_tos", "v": 8}, {"a": "enqueue", "port": P_CONTROLLER, "queue": 0}, out1(P_TABLE)]},
                                                {"op": "rx", "port": 2, "data": udp}, {"op": "rx", "port": 3, "data": udp, "nopd": True},
                                                {"op": "pktout", "in_port": 2, "data": udp, "acts": [ctl(65535), ctl(14)]}], "wf": True, "canon": True})
+        # ---- HARDENING.md families --------------------------------------------------------------------------------------------
+        pm = lambda port, bit, on: {"op": "portmod", "port": port, "hw": self.hw(port).hex(), "config": bit if on else 0, "mask": bit}
+        allout = [out1(P_FLOOD), out1(1), out1(2), out1(3), out1(P_ALL), out1(P_IN_PORT)]
+        stats = {"op": "stats", "port": None}
+        # (l) hidden state between calls (items 1, 2): the SAME frame sent again and again while one guard bit is switched on and off in
+        #     between (a cached "can this port forward"), read-outs of the counters and of the port descriptions in between (replies
+        #     cached or returned by reference), the same frame first with rewrites and then plain (a memoised parse / a shared packet
+        #     object), one flow entry processing A, B, A
+        for port, bit in ((2, PC_PORT_DOWN), (2, PC_NO_FWD), (2, PC_NO_FLOOD), (1, PC_NO_RECV), (1, PC_NO_PACKET_IN), (3, PC_NO_FWD), (1, PC_NO_FWD)):
+            send = [{"op": "pktout", "in_port": 1, "data": tcp, "acts": allout}, {"op": "rx", "port": 1, "data": tcp}, {"op": "rx", "port": 3, "data": udp}]
+            ops = [{"op": "flow", "in_port": 3, "acts": [out1(P_FLOOD), out1(P_IN_PORT)]}] + send + [stats, pm(port, bit, True), {"op": "features"}] + send + \
+                  [{"op": "stats", "port": port}, pm(port, bit, False)] + send + [stats, {"op": "features"}, pm(port, bit, True), pm(port, bit, True)] + send + [stats]
+            cases.append({"ops": ops, "wf": True, "canon": True})
+        for ln in (2, 3):
+            send = [{"op": "pktout", "in_port": 1, "data": udp, "acts": allout}]
+            cases.append({"ops": send + [{"op": "link", "port": ln, "down": True}] + send + [stats, {"op": "link", "port": ln, "down": False}] + send + [stats], "wf": True, "canon": True})
+        rewr = [{"a": "set_vlan_vid", "v": 5}, {"a": "set_nw_dst", "v": 0x01020304}, {"a": "set_tp_src", "v": 9}, {"a": "set_dl_src", "v": "020304050607"}]
+        for fr in (tcp, tcpv, udp):
+            cases.append({"ops": [{"op": "pktout", "in_port": 1, "data": fr, "acts": rewr + [out1(2)]}, {"op": "pktout", "in_port": 1, "data": fr, "acts": [out1(2), out1(P_CONTROLLER)]},
+                                  {"op": "pktout", "in_port": 3, "data": fr, "acts": [{"a": "strip_vlan"}, out1(2)]}, {"op": "pktout", "in_port": 1, "data": fr, "acts": [out1(3)]}, stats],
+                          "wf": True, "canon": True})
+            cases.append({"ops": [{"op": "flow", "in_port": 1, "acts": rewr + [out1(P_FLOOD)]}, {"op": "flow", "in_port": 2, "acts": [out1(P_FLOOD)]},
+                                  {"op": "rx", "port": 1, "data": fr}, {"op": "rx", "port": 2, "data": fr}, {"op": "rx", "port": 1, "data": udp}, {"op": "rx", "port": 1, "data": fr},
+                                  {"op": "rx", "port": 2, "data": fr, "nopd": True}, stats], "wf": True, "canon": True})
+        # (m) buffered packets reused (item 2; oracle and code only — the model keeps no buffer store): frames that missed the table are
+        #     released later, in another order, by action lists with rewrites; a second use and an unknown id do nothing
+        for bufs in (4096, 1):
+            cases.append({"oracle_only": True, "bufs": bufs, "canon": True, "ops": [
+                {"op": "setconfig", "flags": 0, "miss": 20}, {"op": "rx", "port": 1, "data": tcp}, {"op": "rx", "port": 2, "data": udp},
+                {"op": "pktout", "in_port": P_NONE, "buffer": 1, "acts": [{"a": "set_vlan_vid", "v": 7}, out1(P_FLOOD), out1(P_IN_PORT)]},
+                {"op": "pktout", "in_port": P_NONE, "buffer": 0, "acts": [{"a": "set_nw_tos", "v": 0x20}, out1(3), out1(P_IN_PORT), {"a": "set_tp_dst", "v": 1}, out1(2)]},
+                {"op": "pktout", "in_port": P_NONE, "buffer": 0, "acts": [out1(3)]}, {"op": "pktout", "in_port": 1, "buffer": 9, "acts": [out1(3)]}, stats]})
+        # (n) rare port numbers (item 3): ports above 256 (ints built at run time: `is` is not `==`), 0, OFPP_MAX and its neighbours, every
+        #     virtual port value and the values next to them — as output, as enqueue, as ingress, in port_mod / stats
+        for pn in ([1, 300, 0xfeff], [257, 256, 255], [0xfeff, 1000, 2]):
+            a, b, c = pn
+            hwp = lambda x: self.hw(x).hex()
+            for ing in (a, b, c, P_NONE):
+                ops = [{"op": "flow", "in_port": b, "acts": [out1(P_FLOOD), out1(P_IN_PORT), out1(b)]},
+                       {"op": "pktout", "in_port": ing, "data": tcp, "acts": [out1(P_FLOOD), out1(a), out1(b), out1(c), out1(P_ALL), out1(P_IN_PORT), {"a": "enqueue", "port": b, "queue": 0}, out1(P_TABLE)]},
+                       {"op": "rx", "port": b, "data": udp}, {"op": "stats", "port": b},
+                       {"op": "portmod", "port": b, "hw": hwp(b), "config": PC_NO_FWD | PC_NO_RECV, "mask": PC_NO_FWD | PC_NO_RECV},
+                       {"op": "pktout", "in_port": ing, "data": tcp, "acts": [out1(P_ALL), out1(b), out1(P_IN_PORT)]}, {"op": "rx", "port": b, "data": udp}, {"op": "rx", "port": c, "data": udp},
+                       {"op": "features"}, stats]
+                cases.append({"portnos": pn, "ops": ops, "wf": True, "canon": True})
+        for pv in (0, 1, 255, 256, 257, 0xfeff, 0xff00, 0xff01, 0xfff7, 0xfff8, 0xfff9, 0xfffa, 0xfffb, 0xfffc, 0xfffd, 0xfffe, 0xffff):
+            for ing in (1, 0xfff8, pv):
+                cases.append({"ops": [{"op": "pktout", "in_port": ing, "data": udp, "acts": [{"a": "output", "port": pv, "max_len": 10}, out1(3), {"a": "enqueue", "port": pv, "queue": 0}]}, stats],
+                              "wf": True, "canon": True})
+        # (o) zero and extreme field values (item 3): vid 0 / 4095, pcp 0 / 7, ToS 0, port 0, address 0 — on untagged frames, on a tag that is
+        #     all zero, all ones, and on a ToS octet that is all ones
+        ips, ipd = bytes([10, 0, 0, 1]), bytes([10, 0, 0, 2])
+        seg = lambda: tcp_seg(ips, ipd, 1000, 80, 1, 2, 0, 0x18, 100, 0, b"", b"hello")
+        zf = [eth_frame(bytes.fromhex("66778899aabb"), bytes.fromhex("001122334455"), 0x0800, ip_packet(ips, ipd, 6, seg(), tos=0xff), tag)
+              for tag in (None, 0, 0xffff, 0xe005)] + \
+             [eth_frame(bytes.fromhex("66778899aabb"), bytes.fromhex("001122334455"), 0x0800, ip_packet(ips, ipd, 17, udp_seg(ips, ipd, 0, 0, b"")), None)]
+        zeros = [{"a": "set_vlan_vid", "v": 0}, {"a": "set_vlan_vid", "v": 4095}, {"a": "set_vlan_pcp", "v": 0}, {"a": "set_vlan_pcp", "v": 7}, {"a": "set_nw_tos", "v": 0},
+                 {"a": "set_nw_tos", "v": 0xfc}, {"a": "set_tp_src", "v": 0}, {"a": "set_tp_dst", "v": 0}, {"a": "set_tp_src", "v": 65535}, {"a": "set_nw_src", "v": 0},
+                 {"a": "set_nw_dst", "v": 0}, {"a": "set_dl_src", "v": "000000000000"}, {"a": "set_dl_dst", "v": "000000000000"}]
+        for fr in zf:
+            for a in zeros:
+                cases.append({"ops": [{"op": "pktout", "in_port": 1, "data": fr.hex(), "acts": [a, out1(2), {"a": "output", "port": P_CONTROLLER, "max_len": 0}]}], "wf": True, "canon": True})
+        # (p) several messages in ONE read (item 5): port_mod and packet_out in one batch with the port_mod first / in the middle / last,
+        #     several packet-outs of different frames, flow_mod and the packet-out that uses it, set_config and the miss it governs,
+        #     read-outs between them
+        po = lambda fr, acts, ing=1: {"op": "pktout", "in_port": ing, "data": fr, "acts": acts}
+        for bit in (PC_NO_FWD, PC_PORT_DOWN, PC_NO_FLOOD):
+            on, off = pm(2, bit, True), pm(2, bit, False)
+            for seq in ([on, po(tcp, allout), off, po(tcp, allout), stats], [po(tcp, allout), on, po(udp, allout), stats, po(tcp, allout), off],
+                        [po(tcp, allout), po(udp, allout), po(tcpv, allout), on], [on, off, on, po(tcp, allout), {"op": "features"}, stats]):
+                cases.append({"ops": [{"op": "batch", "ops": seq}, po(tcp, allout), stats], "wf": True, "canon": True})
+        cases.append({"ops": [{"op": "batch", "ops": [{"op": "setconfig", "flags": 0, "miss": 9}, {"op": "flow", "in_port": 2, "acts": rewr + [out1(P_FLOOD)]},
+                                                      po(tcp, [out1(P_TABLE), out1(3)], 2), po(udp, [out1(P_TABLE)], 3), stats, po(tcp, [out1(P_TABLE)], 2)]},
+                              {"op": "rx", "port": 3, "data": udp}, stats], "wf": True, "canon": True})
+        # (r) every value of a selector byte with the checksums repaired (item 6): IPv4 protocol 0..255, ICMP type 0..255, IHL 5..15,
+        #     TCP data offset 5..15 — a transport rewrite and an address rewrite between two outputs
+        sel_acts = [{"a": "set_tp_dst", "v": 7777}, out1(2), {"a": "set_nw_src", "v": 0xc0a80505}, out1(3)]
+        mk = lambda pay: eth_frame(bytes.fromhex("66778899aabb"), bytes.fromhex("001122334455"), 0x0800, pay).hex()
+        for proto in range(256):
+            body = bytes(range(24)) if proto not in (6, 17, 1) else {6: seg(), 17: udp_seg(ips, ipd, 1000, 2000, b"abc"), 1: icmp_msg(8, 0, bytes(8))}[proto]
+            c = {"ops": [po(mk(ip_packet(ips, ipd, proto, body)), sel_acts)]}
+            if proto in (2, 47): c["oracle_only"] = True          # IGMP / GRE parsers are outside the packet model (and normalise what they parse)
+            else: c["wf"] = True; c["canon"] = True
+            cases.append(c)
+        for t in range(256):
+            cases.append({"ops": [po(mk(ip_packet(ips, ipd, 1, icmp_msg(t, 0, bytes(range(12))))), sel_acts)], "wf": True, "canon": True})
+        for hl in range(5, 16):
+            cases.append({"ops": [po(mk(ip_packet(ips, ipd, 17, udp_seg(ips, ipd, 1000, 2000, b"abc"), options=bytes([1]) * (4 * (hl - 5)))), sel_acts)], "wf": True, "canon": True})
+            cases.append({"ops": [po(mk(ip_packet(ips, ipd, 6, tcp_seg(ips, ipd, 1000, 80, 1, 2, 0, 0x18, 100, 0, bytes([1]) * (4 * (hl - 5)), b"hello"))), sel_acts)], "wf": True, "canon": True})
         # (f) the witnesses of Properties/C12.lean (`enqueue_d7_defect`, `table_recount_d8_defect`, `vlan_pcp_c121_defect`) replayed on
         #     the implementation: four ports, port 2 NO_FLOOD, port 3 NO_FWD, one entry for in_port 3, a 16-byte frame
         small = "66778899aabb00112233445588b50102"
@@ -808,7 +1000,22 @@ class C12(Check):
                 ops.append({"op": "portmod", "port": rng.choice([1, 2, 3, 4]), "hw": self.hw(rng.randint(1, 3)).hex() if rng.random() < 0.8 else "0000000000aa",
                             "config": rng.randint(0, 2 ** 32 - 1), "mask": rng.choice([0x7f, 0xffffffff, rng.randint(0, 255), 1 << rng.randint(0, 31)])})
                 ops.append({"op": "pktout", "in_port": ing, "data": fr.hex(), "acts": self.g_actions(rng, rng.randint(1, 3), False)})
+            r2 = rng.random()
+            if r2 < 0.15:                                  # read-outs in between, and the same traffic once more after them
+                resend = [copy.deepcopy(o) for o in ops if o["op"] in ("pktout", "rx")]
+                ops += [{"op": "stats", "port": rng.choice([None, None, 1, 2, 3])}] + ([{"op": "features"}] if rng.random() < 0.5 else []) + resend + [{"op": "stats", "port": None}]
+            elif r2 < 0.27:                                # consecutive controller messages in one read
+                out, run = [], []
+                for o in ops:
+                    if o["op"] in ("portmod", "setconfig", "flow", "pktout"): run.append(o)
+                    else:
+                        if run: out.append({"op": "batch", "ops": run} if len(run) > 1 else run[0]); run = []
+                        out.append(o)
+                if run: out.append({"op": "batch", "ops": run} if len(run) > 1 else run[0])
+                ops = out
             case = {"ops": ops, "shape": shape}
+            if r2 >= 0.27 and r2 < 0.37:                   # port numbers above 256 / next to OFPP_MAX
+                case = self.remap(case, {2: 300, 3: 0xfeff} if rng.random() < 0.5 else {1: 257, 2: 256, 3: 0xfeff})
             if rng.random() < 0.15: case["bufs"] = rng.choice([0, 1, 2, 3])
             if can: case["canon"] = True
             if wf and not wild: case["wf"] = True
